@@ -59,3 +59,42 @@ From Verif Require Import Gen.Consts.
 Theorem C13_map_methods_hold_the_lock : ws_map_methods_hold_the_lock = true.
 Proof. reflexivity. Qed.
 Print Assumptions C13_map_methods_hold_the_lock.
+
+(* GLOBAL liveness.  The scheduler (thread steps and a helpful application that keeps receiving)
+   plays against an adversary that decides, adaptively, which connection operations fail:
+   [wins P s] = it can drive s into P whatever the adversary does.
+   "Every API call returns as long as connection writes complete": from the state reached by ANY
+   schedule with at most one Close, all calls can be brought to return, under every fault
+   assignment [fa] ... *)
+From Verif Require Import Rt.WsSpec Proofs.WsLive.
+Theorem C13_every_call_returns :
+  forall ls, close_once ls -> forall fa,
+  exists ls', Forall internal ls' /\ follows fa ls' /\ all_done (run_from (run ls) ls') = true.
+Proof. exact calls_can_always_complete_any_faults. Qed.
+Print Assumptions C13_every_call_returns.
+
+(* ... the one-Close hypothesis is the property's own quantifier ("one Close"); without it the
+   MODEL has a deadlock (its Close threads share one list of collected ids; the real code takes
+   one GetAllIDs snapshot per call): stated so that the hypothesis is seen to be needed *)
+Theorem C13_two_closes_deadlock_in_the_model_refuted :
+  ~ (forall s, reachable s -> exists ls, Forall internal ls /\ all_done (run_from s ls) = true).
+Proof. exact calls_can_always_complete_needs_close_once. Qed.
+Print Assumptions C13_two_closes_deadlock_in_the_model_refuted.
+
+(* "the background reader terminates once the client is closed or the connection is lost":
+   from every reachable state that is closing or lost, under every fault assignment *)
+Theorem C13_reader_terminates :
+  forall s, reachable s -> (is_closing s = true \/ lost s = true) -> forall fa,
+  exists ls, Forall internal ls /\ follows fa ls /\ reader (run_from s ls) = RDone.
+Proof. exact reader_terminates_after_close_or_loss_any_faults. Qed.
+Print Assumptions C13_reader_terminates.
+
+(* non-vacuity: a reachable state with a Subscribe, an Unsubscribe and a Close in flight and the
+   reader blocked in a channel send is covered *)
+Theorem C13_liveness_witness :
+  calls (run busy) = [ADone true; ADone true; ASubWrite 2; AUnsubWrite 1; ACloseUnsub false]
+  /\ reader (run busy) = RSend 0 7 /\ close_once busy.
+Proof.
+  split; [vm_compute; reflexivity|]. split; [vm_compute; reflexivity|].
+  unfold close_once. vm_compute. repeat constructor.
+Qed.
